@@ -3,7 +3,8 @@
 Require Extraction.
 Require ExtrOcamlBasic.
 From Coq Require Import NArith.
-From Pika Require Import Base.Conc Base.Agent Model.CondVar Model.CondVarAbort.
+From Pika Require Import Base.Conc Base.Agent Gen.GenTimedPred Model.CondVar Model.CondVarAbort Model.TimedPredLoop.
 Extraction Language OCaml.
 (* N.succ only so that the numeral types used by the shared conversion helpers exist in m.ml *)
-Extraction "m.ml" cv_tstep cv_enabled cv_view cv_init cv_locals N.succ ab_tstep ab_init ab_locals.
+Extraction "m.ml" cv_tstep cv_enabled cv_view cv_init cv_locals N.succ ab_tstep ab_init ab_locals
+  tp_call script cv_on_timeout cva_on_timeout cvs_on_timeout.
